@@ -1,4 +1,5 @@
 import CMacVerif.Lemmas.RecombBounds
+import CMacVerif.Lemmas.Planck
 /-!
 # C18 — atomic data and sampled photon frequencies are physical
 
@@ -15,14 +16,14 @@ implementation): finiteness in IEEE arithmetic, and that the tabulated cumulativ
 are those of the physical spectra (the samplers are proved to invert their tables).
 -/
 namespace CMacVerif.C18
-open CMacVerif CMacVerif.Verner CMacVerif.Gen.Verner CMacVerif.Locate
+open CMacVerif CMacVerif.Verner CMacVerif.Gen.Verner CMacVerif.Locate CMacVerif.Planck
 
 /-! ## photoionization cross sections -/
 
 /-- **Every data row a tracked ion reads is well formed**: threshold, energy scale `E₀` and `y_a`
 positive, `σ₀ ≥ 0`, in `verner_A.dat` and `verner_B.dat` as shipped (22 shells). -/
-theorem table_wellformed : ∀ s ∈ usedShells, ShellWF s.1 s.2.1 s.2.2 := by
-  simp only [usedShells, List.forall_mem_cons, List.not_mem_nil, false_imp_iff, implies_true, and_true]
+theorem table_wellformed : ∀ s ∈ usedShellsSpec, ShellWF s.1 s.2.1 s.2.2 := by
+  simp only [usedShellsSpec, allIons, ionShellsSpec, List.flatMap_cons, List.flatMap_nil, List.cons_append, List.nil_append, List.append_nil, List.forall_mem_cons, List.not_mem_nil, false_imp_iff, implies_true, and_true]
   norm_num [ShellWF, RowAWF, RowBWF]
 
 /-- **σ ≥ 0** for every tracked ion and every photon frequency (also negative or zero ones). -/
@@ -37,7 +38,7 @@ theorem sigma_nonneg (ion : Ion) (e : ℝ) : 0 ≤ crossSection ion e := by
 /-- **σ = 0 below threshold**: a photon below the threshold of every shell the ion sums over
 has cross section exactly zero. -/
 theorem sigma_zero_below_threshold (ion : Ion) (e : ℝ)
-    (h : ∀ s ∈ ionShells ion, e < shellThreshold s.1 s.2.1 s.2.2) : crossSection ion e = 0 := by
+    (h : ∀ s ∈ ionShellsSpec ion, e < shellThreshold s.1 s.2.1 s.2.2) : crossSection ion e = 0 := by
   unfold crossSection
   rw [sumLeft_eq_sum]
   apply List.sum_eq_zero
@@ -46,7 +47,7 @@ theorem sigma_zero_below_threshold (ion : Ion) (e : ℝ)
   exact csv_below _ _ _ e (h s hs)
 
 /-- all thresholds are positive, so the hypothesis above holds e.g. for every `e ≤ 0` -/
-theorem thresholds_pos : ∀ s ∈ usedShells, 0 < shellThreshold s.1 s.2.1 s.2.2 :=
+theorem thresholds_pos : ∀ s ∈ usedShellsSpec, 0 < shellThreshold s.1 s.2.1 s.2.2 :=
   fun s hs => shellThreshold_pos (table_wellformed s hs).1
 
 example (ion : Ion) : crossSection ion (0 : ℝ) = 0 :=
@@ -56,7 +57,7 @@ example (ion : Ion) : crossSection ion (0 : ℝ) = 0 :=
 example (e : ℝ) (h : e < 13.6 * eVtoHz) : crossSection .H_n e = 0 := by
   apply sigma_zero_below_threshold
   intro s hs
-  simp only [ionShells, List.mem_singleton] at hs
+  simp only [ionShellsSpec, List.mem_singleton] at hs
   subst hs
   simp only [shellThreshold, prepA, dataA_1_1_1]
   norm_num at h ⊢
@@ -78,7 +79,7 @@ theorem sigma_is_fit (nz ne is : ℕ) (e : ℝ) :
 
 /-- the cross section of an ion is the sum of the shell fits the C++ switch lists for it -/
 theorem sigma_is_sum_of_fits (ion : Ion) (e : ℝ) :
-    crossSection ion e = ((ionShells ion).map fun s => crossSectionVerner s.1 s.2.1 s.2.2 e).sum := by
+    crossSection ion e = ((ionShellsSpec ion).map fun s => crossSectionVerner s.1 s.2.1 s.2.2 e).sum := by
   unfold crossSection; rw [sumLeft_eq_sum]
 
 /-- element and number of electrons of every tracked ion (atomic numbers H 1, He 2, C 6, N 7,
@@ -88,18 +89,41 @@ def ionZN : Ion → ℕ × ℕ
   | .N_n => (7, 7) | .N_p1 => (7, 6) | .N_p2 => (7, 5) | .O_n => (8, 8) | .O_p1 => (8, 7)
   | .Ne_n => (10, 10) | .Ne_p1 => (10, 9) | .S_p1 => (16, 15) | .S_p2 => (16, 14) | .S_p3 => (16, 13)
 
-/-- **The switch of `get_cross_section` addresses the right ion**: every shell it sums for an ion
+/-- **The specified shell sums address the right ion**: every shell summed for an ion
 belongs to that element and charge state, is a valence shell (above the inner shell `Ninn`, at
 most the outer shell), the first one is the outermost shell, and the radiative recombination fit
 of the metal ions uses the same (Z, N). -/
 theorem ion_shells_physical (ion : Ion) :
-    (∀ s ∈ ionShells ion, (s.1, s.2.1) = ionZN ion ∧ nintOf s.2.1 < s.2.2 ∧ s.2.2 ≤ noutOf s.1 s.2.1) ∧
-    (ionShells ion).head?.map (·.2.2) = some (noutOf (ionZN ion).1 (ionZN ion).2) ∧
+    (∀ s ∈ ionShellsSpec ion, (s.1, s.2.1) = ionZN ion ∧ nintOf s.2.1 < s.2.2 ∧ s.2.2 ≤ noutOf s.1 s.2.1) ∧
+    (ionShellsSpec ion).head?.map (·.2.2) = some (noutOf (ionZN ion).1 (ionZN ion).2) ∧
     (recPairOf ion = none ∨ recPairOf ion = some (ionZN ion)) := by
   cases ion <;> decide
 
+/-- **The switch of `get_cross_section` is the specification**: for every tracked ion the list of
+`get_cross_section_verner(Z, N, shell, ·)` calls extracted from the current C++ source equals
+`ionShellsSpec`, so `get_cross_section` as coded is the specified sum of published fits.  (A change
+of the switch breaks this theorem AND shows up as a concrete (ion, energy) in the `xs` stream,
+because the driver evaluates the specification.) -/
+theorem coded_shells_are_spec (ion : Ion) (e : ℝ) :
+    ionShells ion = ionShellsSpec ion ∧ crossSectionCoded ion e = crossSection ion e := by
+  have h : ionShells ion = ionShellsSpec ion := by cases ion <;> rfl
+  exact ⟨h, by unfold crossSectionCoded crossSection; rw [h]⟩
+
 /-- the `gtNout` return is dead code for the tracked ions: every used shell is ≤ the outer shell -/
-theorem used_shells_le_nout : ∀ s ∈ usedShells, s.2.2 ≤ noutOf s.1 s.2.1 := by decide
+theorem used_shells_le_nout : ∀ s ∈ usedShellsSpec, s.2.2 ≤ noutOf s.1 s.2.1 := by decide
+
+/-- **Fixed-value cross sections** (`FixedValueCrossSections`): the value is the constructor
+argument of that ion for every energy, hence non-negative whenever the given values are. -/
+theorem fixed_value_cross_sections (args : List ℝ) (ion : Ion) (e : ℝ) :
+    fixedCrossSection args ion e = args.getD ion.argIndex 0 ∧
+    ((∀ v ∈ args, 0 ≤ v) → 0 ≤ fixedCrossSection args ion e) := by
+  have h : fixedCrossSection args ion e = args.getD ion.argIndex 0 := by
+    unfold fixedCrossSection; rw [zero_lit]
+  refine ⟨h, fun hv => ?_⟩
+  rw [h, List.getD_eq_getElem?_getD]
+  cases hq : args[ion.argIndex]? with
+  | none => simp
+  | some v => simpa using hv v (List.mem_of_getElem? hq)
 
 /-! ## recombination rates -/
 
@@ -232,6 +256,55 @@ example : (10 : ℝ) ^ (((0 : ℕ) : ℝ)) * 3.288465385e15 ≤
   · norm_num
   · norm_num
   · norm_num
+
+/-- **The tables the Planck constructor builds are well formed, for EVERY temperature** `T > 0`
+(model `Model/Planck.lean` of `PlanckPhotonSourceSpectrum.cpp` 53-104, any table size
+`2 ≤ N ≤ 10⁸`): the cumulative table starts at 0, ends at 1, is sorted and positive from entry 1
+on; the logarithmic table is `log₁₀` of it with floor `-10` strictly below its second entry (the
+first bin holds at least `1/(32 (N-1))` of the photons); the log-frequency table is sorted from
+`0 = log₁₀ 1` to `log₁₀ 4`.  These are all the hypotheses of `sample_in_range_planck`. -/
+theorem planck_tables_wellformed (hP kB T : ℝ) (N : ℕ) (hh : 0 < hP) (hk : 0 < kB) (hT : 0 < T)
+    (hN : 2 ≤ N) (hNb : N ≤ 100000000) :
+    pCdf rc hP kB T N 0 = 0 ∧ pCdf rc hP kB T N (N - 1) = 1 ∧
+    (∀ i j, i ≤ j → pCdf rc hP kB T N i ≤ pCdf rc hP kB T N j) ∧
+    (∀ i, 1 ≤ i → 0 < pCdf rc hP kB T N i) ∧
+    (∀ i, 1 ≤ i → pLogCdf rc hP kB T N i = Real.log (pCdf rc hP kB T N i) / Real.log 10) ∧
+    pLogCdf rc hP kB T N 0 = -10 ∧ pLogCdf rc hP kB T N 0 < pLogCdf rc hP kB T N 1 ∧
+    (∀ i j, i ≤ j → pLogFreq rc N i ≤ pLogFreq rc N j) ∧
+    (10 : ℝ) ^ pLogFreq rc N 0 = 1 ∧ (10 : ℝ) ^ pLogFreq rc N (N - 1) = 4 :=
+  ⟨pCdf_zero, pCdf_last hh hk hT hN, fun _ _ h => pCdf_mono hh hk hT hN h, fun _ hi => pCdf_pos hh hk hT hN hi,
+   fun _ hi => pLogCdf_of_pos hi, pLogCdf_zero, pLogCdf_first hh hk hT hN hNb, fun _ _ h => pLogFreq_mono hN h,
+   by rw [pLogFreq_zero, Real.rpow_zero], pLogFreq_last hN⟩
+
+/-- the linear-time tabulation the driver runs against the real constructor IS the model's table,
+entry by entry, in every arithmetic (in particular at `Float`) -/
+theorem planck_fast_tables_are_model {α : Type} [Add α] [Sub α] [Mul α] [Div α] [Neg α] [LT α] [LE α]
+    [DecidableLT α] [DecidableLE α] [OfScientific α] [ArithFns α]
+    (ofNat : ℕ → α) (hP kB T : α) (N i : ℕ) (hi : i ≤ N - 1) :
+    pCdfFast (pCumArr ofNat hP kB T N (N - 1)) N i = pCdf ofNat hP kB T N i ∧
+    pLogCdfFast (pCumArr ofNat hP kB T N (N - 1)) N i = pLogCdf ofNat hP kB T N i :=
+  ⟨pCdfFast_eq ofNat hP kB T N i hi, pLogCdfFast_eq ofNat hP kB T N i hi⟩
+
+/-- **A Planck source of ANY temperature only emits ionizing photons inside its range**: with the
+tables the constructor builds (no hypothesis on them any more), for every `T > 0` and every random
+number `1e-10 ≤ u ≤ 1` the sampled frequency lies in `[1, 4] × 3.288465385e15 Hz`. -/
+theorem planck_spectrum_in_range (hP kB T : ℝ) (N : ℕ) (hh : 0 < hP) (hk : 0 < kB) (hT : 0 < T)
+    (hN : 2 ≤ N) (hNb : N ≤ 100000000) (u : ℝ) (hu0 : 1e-10 ≤ u) (hu1 : u ≤ 1) :
+    (3.288465385e15 : ℝ) ≤ planckSample u (pCdf rc hP kB T N) (pLogCdf rc hP kB T N) (pLogFreq rc N) N ∧
+    planckSample u (pCdf rc hP kB T N) (pLogCdf rc hP kB T N) (pLogFreq rc N) N ≤ 4 * 3.288465385e15 := by
+  obtain ⟨c0, c1, cm, cp, cl, l0, lf, fm, f0, f1⟩ := planck_tables_wellformed hP kB T N hh hk hT hN hNb
+  have hupos : (0 : ℝ) < u := lt_of_lt_of_le (by norm_num) hu0
+  have := sample_in_range_planck u (pCdf rc hP kB T N) (pLogCdf rc hP kB T N) (pLogFreq rc N) N hN
+    (fun i hi _ => cp i hi) (fun i hi _ => cl i hi) (by rw [l0]; exact neg_ten_le_log10 hu0) lf
+    (fun i j hij _ => fm i j hij) hupos (by rw [c0]; exact hupos) (by rw [c1]; exact hu1)
+  rw [f0, f1, one_mul] at this
+  exact this
+
+example : (3.288465385e15 : ℝ) ≤
+    planckSample (1 / 2) (pCdf rc 6.62607004e-34 1.38064852e-23 4e4 1000)
+      (pLogCdf rc 6.62607004e-34 1.38064852e-23 4e4 1000) (pLogFreq rc 1000) 1000 :=
+  (planck_spectrum_in_range 6.62607004e-34 1.38064852e-23 4e4 1000 (by norm_num) (by norm_num) (by norm_num)
+    (by norm_num) (by norm_num) (1 / 2) (by norm_num) (by norm_num)).1
 
 /-- **Linear samplers in range** (helium two-photon continuum, masked spectrum): for
 `cdf 0 < u ≤ cdf (n-1)` the frequency lies in `[freq 0, freq (n-1)]`. -/
